@@ -244,28 +244,32 @@ class _Recorder:
 
 def _wrap_channel(conn, log, is_async):
     ch = conn.channel
-    for name in ("get_prompt", "send_input", "send_inputs_interact"):
+    def _nw():
+        return getattr(conn.transport, "nwrites", 0)
+    for name in ("get_prompt", "send_input", "send_inputs_interact", "send_input_and_read"):
         orig = getattr(ch, name)
         if is_async:
             def mk(orig=orig, name=name):
                 async def w(*a, **kw):
+                    lkw = dict(kw, _nw=_nw())
                     try:
                         r = await orig(*a, **kw)
                     except BaseException as e:
-                        log.append((name, a, kw, ("EXC", type(e).__name__)))
+                        log.append((name, a, lkw, ("EXC", type(e).__name__)))
                         raise
-                    log.append((name, a, kw, r))
+                    log.append((name, a, lkw, r))
                     return r
                 return w
         else:
             def mk(orig=orig, name=name):
                 def w(*a, **kw):
+                    lkw = dict(kw, _nw=_nw())
                     try:
                         r = orig(*a, **kw)
                     except BaseException as e:
-                        log.append((name, a, kw, ("EXC", type(e).__name__)))
+                        log.append((name, a, lkw, ("EXC", type(e).__name__)))
                         raise
-                    log.append((name, a, kw, r))
+                    log.append((name, a, lkw, r))
                     return r
                 return w
         setattr(ch, name, mk())
@@ -462,8 +466,8 @@ def model_request(sc: Scenario, res: RunResult) -> Optional[str]:
         prx = rx(res.prompt_pattern.encode(), flags)
     except RxUnsupported:
         return None
-    if sc.commandeer or any(op[0] in ("reopen", "send_and_read", "set_pattern") for op in sc.ops):
-        return None      # two driver objects / two sessions on one object / the timed read loop: judged by the oracle
+    if sc.commandeer or any(op[0] in ("reopen", "set_pattern") for op in sc.ops):
+        return None      # two driver objects / two sessions on one object: judged by the oracle
     if res.abandoned:
         return None      # an operation given up midway: judged by the oracle on the following operations, not replayed on the model
     ops, table = [], {}
@@ -474,6 +478,26 @@ def model_request(sc: Scenario, res: RunResult) -> Optional[str]:
             ci = kw.get("channel_input", a[0] if a else "")
             fl = "".join("1" if kw.get(k, d) else "0" for k, d in (("strip_prompt", True), ("eager", False), ("eager_input", False)))
             ops.append(f"si:{hexs(ci.encode())}:{fl}")
+        elif name == "send_input_and_read":
+            # the timed read loop: expected outputs, the compiled `_join_and_compile(outputs)` pattern, and which iterations of the
+            # loop had their transport read time out (trace events between the return of this call and the next write)
+            ci = kw.get("channel_input", a[0] if a else "")
+            outs = [o.encode() for o in (kw.get("expected_outputs") or [])]
+            orx = "."
+            if outs:
+                try:
+                    orx = rx(b"|".join(b"(" + o + b")" for o in outs), flags)
+                except RxUnsupported:
+                    return None
+            trace, nw, seen, pz = res.conn.transport.trace, kw.get("_nw", 0), 0, []
+            for ev in trace:
+                if ev[0] == "W":
+                    seen += 1
+                    if seen > nw + 2:
+                        break
+                elif seen == nw + 2 and ev[0] in ("R", "pause"):
+                    pz.append("1" if ev[0] == "pause" else "0")
+            ops.append(f"sar:{hexs(ci.encode())}:{'1' if kw.get('strip_prompt', True) else '0'}:{hexl(outs)}:{orx}:{''.join(pz) or '.'}")
         else:
             evs = kw.get("interact_events", a[0] if a else [])
             comp = kw.get("interaction_complete_patterns") or []
@@ -512,6 +536,8 @@ def real_reply(res: RunResult) -> str:
             parts.append(f"gp={hexs(r.encode())}")
         elif name == "send_input":
             parts.append(f"si={hexs(r[0])},{hexs(r[1])}")
+        elif name == "send_input_and_read":
+            parts.append(f"sar={hexs(r[0])},{hexs(r[1])}")
         else:
             parts.append(f"ii={hexs(r[0])},{hexs(r[1])}")
     held = getattr(res.conn.channel, "_ansi_held", b"")     # beginning of an escape sequence cut by the last read (fix 'strip ansi across reads')
